@@ -1,0 +1,218 @@
+//! Verification facade (compiled only with `--cfg similari_verif`).
+//!
+//! Re-exports controlled-scheduler replacements (shuttle) for the synchronisation primitives the
+//! crate uses, a small MPMC channel with crossbeam's semantics built on them, and named schedule
+//! points. Nothing in here is reachable in a normal build.
+
+use std::cell::RefCell;
+
+pub mod sync {
+    pub use shuttle::sync::{
+        Condvar, Mutex, MutexGuard, RwLock, RwLockReadGuard, RwLockWriteGuard,
+    };
+    pub use std::sync::Arc;
+}
+
+pub mod thread {
+    pub use shuttle::thread::{spawn, JoinHandle};
+}
+
+pub mod crossbeam {
+    pub mod channel {
+        use shuttle::sync::{Condvar, Mutex};
+        use std::collections::VecDeque;
+        use std::fmt;
+        use std::sync::Arc;
+
+        struct Inner<T> {
+            q: VecDeque<T>,
+            cap: Option<usize>,
+            senders: usize,
+            receivers: usize,
+        }
+
+        struct Shared<T> {
+            m: Mutex<Inner<T>>,
+            not_empty: Condvar,
+            not_full: Condvar,
+        }
+
+        pub struct Sender<T>(Arc<Shared<T>>);
+        pub struct Receiver<T>(Arc<Shared<T>>);
+
+        pub struct SendError<T>(pub T);
+
+        #[derive(Debug, Clone, Copy, PartialEq, Eq)]
+        pub struct RecvError;
+
+        impl<T> fmt::Debug for SendError<T> {
+            fn fmt(&self, f: &mut fmt::Formatter<'_>) -> fmt::Result {
+                "SendError(..)".fmt(f)
+            }
+        }
+
+        impl<T> fmt::Display for SendError<T> {
+            fn fmt(&self, f: &mut fmt::Formatter<'_>) -> fmt::Result {
+                "sending on a disconnected channel".fmt(f)
+            }
+        }
+
+        impl<T: Send> std::error::Error for SendError<T> {}
+
+        impl fmt::Display for RecvError {
+            fn fmt(&self, f: &mut fmt::Formatter<'_>) -> fmt::Result {
+                "receiving on an empty and disconnected channel".fmt(f)
+            }
+        }
+
+        impl std::error::Error for RecvError {}
+
+        fn make<T>(cap: Option<usize>) -> (Sender<T>, Receiver<T>) {
+            let shared = Arc::new(Shared {
+                m: Mutex::new(Inner {
+                    q: VecDeque::new(),
+                    cap,
+                    senders: 1,
+                    receivers: 1,
+                }),
+                not_empty: Condvar::new(),
+                not_full: Condvar::new(),
+            });
+            (Sender(shared.clone()), Receiver(shared))
+        }
+
+        pub fn unbounded<T>() -> (Sender<T>, Receiver<T>) {
+            make(None)
+        }
+
+        pub fn bounded<T>(cap: usize) -> (Sender<T>, Receiver<T>) {
+            assert!(cap >= 1, "rendezvous channels are not modelled");
+            make(Some(cap))
+        }
+
+        impl<T> Sender<T> {
+            pub fn send(&self, t: T) -> Result<(), SendError<T>> {
+                let mut g = self.0.m.lock().unwrap();
+                loop {
+                    if g.receivers == 0 {
+                        return Err(SendError(t));
+                    }
+                    let room = match g.cap {
+                        None => true,
+                        Some(c) => g.q.len() < c,
+                    };
+                    if room {
+                        g.q.push_back(t);
+                        drop(g);
+                        self.0.not_empty.notify_one();
+                        return Ok(());
+                    }
+                    g = self.0.not_full.wait(g).unwrap();
+                }
+            }
+
+            pub fn is_empty(&self) -> bool {
+                self.0.m.lock().unwrap().q.is_empty()
+            }
+        }
+
+        impl<T> Receiver<T> {
+            pub fn recv(&self) -> Result<T, RecvError> {
+                let mut g = self.0.m.lock().unwrap();
+                loop {
+                    if let Some(x) = g.q.pop_front() {
+                        drop(g);
+                        self.0.not_full.notify_one();
+                        return Ok(x);
+                    }
+                    if g.senders == 0 {
+                        return Err(RecvError);
+                    }
+                    g = self.0.not_empty.wait(g).unwrap();
+                }
+            }
+
+            pub fn is_empty(&self) -> bool {
+                self.0.m.lock().unwrap().q.is_empty()
+            }
+        }
+
+        impl<T> Clone for Sender<T> {
+            fn clone(&self) -> Self {
+                self.0.m.lock().unwrap().senders += 1;
+                Sender(self.0.clone())
+            }
+        }
+
+        impl<T> Clone for Receiver<T> {
+            fn clone(&self) -> Self {
+                self.0.m.lock().unwrap().receivers += 1;
+                Receiver(self.0.clone())
+            }
+        }
+
+        impl<T> Drop for Sender<T> {
+            fn drop(&mut self) {
+                if std::thread::panicking() {
+                    return;
+                }
+                let last = {
+                    let mut g = self.0.m.lock().unwrap();
+                    g.senders -= 1;
+                    g.senders == 0
+                };
+                if last {
+                    self.0.not_empty.notify_all();
+                }
+            }
+        }
+
+        impl<T> Drop for Receiver<T> {
+            fn drop(&mut self) {
+                if std::thread::panicking() {
+                    return;
+                }
+                let last = {
+                    let mut g = self.0.m.lock().unwrap();
+                    g.receivers -= 1;
+                    g.receivers == 0
+                };
+                if last {
+                    self.0.not_full.notify_all();
+                }
+            }
+        }
+
+        impl<T> fmt::Debug for Sender<T> {
+            fn fmt(&self, f: &mut fmt::Formatter<'_>) -> fmt::Result {
+                f.pad("Sender { .. }")
+            }
+        }
+
+        impl<T> fmt::Debug for Receiver<T> {
+            fn fmt(&self, f: &mut fmt::Formatter<'_>) -> fmt::Result {
+                f.pad("Receiver { .. }")
+            }
+        }
+    }
+}
+
+thread_local! {
+    static LABELS: RefCell<Vec<(&'static str, u64)>> = const { RefCell::new(Vec::new()) };
+}
+
+/// Named schedule point: records `(site, arg)` and yields to the controlled scheduler.
+pub fn point(site: &'static str, arg: u64) {
+    LABELS.with(|l| l.borrow_mut().push((site, arg)));
+    shuttle::thread::yield_now();
+}
+
+/// Label only: recorded for the schedule log, no scheduling point.
+pub fn label(site: &'static str, arg: u64) {
+    LABELS.with(|l| l.borrow_mut().push((site, arg)));
+}
+
+/// Labels recorded since the last call (all tasks of an execution share the explorer's OS thread).
+pub fn take_labels() -> Vec<(&'static str, u64)> {
+    LABELS.with(|l| std::mem::take(&mut *l.borrow_mut()))
+}
